@@ -109,6 +109,7 @@ class Exits:
         if k in ('format', 'fmt::format') or k.startswith('Arguments::') or k.endswith('::to_string') and False:
             return 'fmt(..)'
         k = re.sub(r'^<(&?\w+) as \w+(?:<.*>)?>::', r'\1::', k)
+        k = re.sub(r'\[closure@[^\]]*\]', '[closure]', k)      # no source positions in descriptions
         raw_args = list(t.args or [])
         if any(a.strip() == 'const _' for a in raw_args):
             names = iter(re.findall(r'Unevaluated\(([A-Za-z_][\w:]*)', ' '.join(t.extra or [])))
